@@ -1,26 +1,72 @@
-/* C08 / C09 / C02: special members of v2 async_scope's nest sender (include/unifex/v2/async_scope.hpp,
- * _nest_sender<Sender>::type; future<> of spawn_future is built on it).  Invariant of every nest sender object:
- * the wrapped sender is alive  <=>  the object holds a scope reference.  Each operation keeps it, destroys a wrapped
- * sender exactly once, and never loses or duplicates a scope reference. */
+/* C08 / C09 / C02: v2 async_scope's nest sender, nest operation construction and scope_reference (include/unifex/v2/async_scope.hpp;
+ * future<> of spawn_future is built on the nest sender), plus the v2 debug_async_scope forwarder.
+ * Invariant of every nest sender object: the wrapped sender is alive  <=>  the object holds a scope reference.  Each operation
+ * keeps it, destroys a wrapped sender exactly once, and never loses or duplicates a scope reference:
+ *   count conservation  CONS:  units this party holds on the scope word (G.my_refs, each one a +2 on opState_ made by
+ *   try_record_start and not yet given back by record_completion)  ==  number of live non-empty scope_reference objects.
+ * A lost reference (unit never given back) blocks join() forever (C08 liveness clause); a duplicated one lets join() complete
+ * while nested work is still running (C08 safety clause); a unit acquired after the close starts work after the close. */
 #include <stddef.h>
-struct async_scope { int dummy; };
+struct async_scope { size_t opState_; };
 struct scope_reference { struct async_scope* scope_; };
 struct nest_sender { struct scope_reference scope_; int sender_; };
+struct nest_op { struct scope_reference scope_; int receiver_; int op_; };
+struct debug_scope { struct async_scope scope_; int ops_; };
 struct vf_ghost {
   _Bool alive_a, alive_b;        /* wrapped sender of object A / B is constructed */
   unsigned constructs, destructs;
-  unsigned acquired, released;   /* scope references created by copy / released by ~scope_reference */
-  _Bool copy_fails;              /* the scope is closed: copying a reference yields an empty one */
+  unsigned acquired, released;   /* successful try_record_start / record_completion calls of this party */
+  size_t my_refs;                /* units this party holds on the scope word */
   _Bool bad;                     /* construct of a live sender / destruct of a dead one */
+  /* nest operation under construction */
+  _Bool threw;                   /* an exception is propagating */
+  _Bool may_throw;               /* the receiver's / wrapped sender's operations may throw (conditional noexcept) */
+  _Bool inner_alive, rcv_alive;  /* OP.op_ holds a connected inner operation / OP.receiver_ is constructed */
+  unsigned connects, rcv_constructs, rcv_destructs;
+  _Bool init_move;               /* a mem-initialiser argument was an rvalue (std::move) */
+  /* debug scope */
+  unsigned nests, wraps, forwards; int wrapped_sender; int fwd_kind;
 };
 static struct vf_ghost G;
 #include "vf.h"
-static void vf_interfere(void) {}
 static struct async_scope SC;
-static struct nest_sender A, B;   /* A: the object operated on (this); B: the other operand (t / rhs) */
+static struct nest_sender A, B;   /* A: the object operated on (this); B: the other operand (t / rhs / s) */
+static struct nest_op OP;         /* the nest operation being constructed (connect's return slot) */
+static struct scope_reference R1, R2;
+static struct debug_scope DS;
 #define ALIVE(p) (*((p) == &A ? &G.alive_a : &G.alive_b))
 #define INV(p) (ALIVE(p) == ((p)->scope_.scope_ != NULL) && ((p)->scope_.scope_ == NULL || (p)->scope_.scope_ == &SC))
 #define SR_BOOL(r) ((r)->scope_ != NULL)
+
+/* ---- the scope word (contracts of try_record_start / record_completion: group scope_v2) ---- */
+#define AS_COUNT_MAX ((size_t)1 << 40)
+#define OPEN(s)   (((s) & (size_t)1) != 0)
+#define COUNT(s)  ((s) >> 1)
+/* rely (as in scope_v2): the open bit only goes 1->0; once closed the count never grows; never below the units I own */
+#define RELY(o, n) ((!OPEN(o) ? !OPEN(n) : 1) && (!OPEN(o) ? COUNT(n) <= COUNT(o) : 1) && COUNT(n) >= G.my_refs && COUNT(n) < AS_COUNT_MAX)
+static void vf_interfere(void) {
+  size_t o = SC.opState_;
+  size_t n = VF_nondet_size_t();
+  __CPROVER_assume(RELY(o, n));
+  SC.opState_ = n;
+}
+#define LIVE(r) ((r).scope_ != NULL ? (size_t)1 : (size_t)0)
+#define REF_OK(r) ((r).scope_ == NULL || (r).scope_ == &SC)
+#define CONS (G.my_refs == LIVE(A.scope_) + LIVE(B.scope_) + LIVE(OP.scope_) + LIVE(R1) + LIVE(R2) && COUNT(SC.opState_) >= G.my_refs \
+              && REF_OK(A.scope_) && REF_OK(B.scope_) && REF_OK(OP.scope_) && REF_OK(R1) && REF_OK(R2))
+static _Bool try_record_start(struct async_scope* scope) {
+  VF_P(scope == &SC, "try_record_start on the scope the reference belongs to");
+  vf_interfere();
+  if (!OPEN(SC.opState_)) return 0;              /* refused: a closed state was observed, nothing written */
+  SC.opState_ += 2; G.my_refs++; G.acquired++;   /* admitted before the close: exactly one unit */
+  return 1;
+}
+static void record_completion(struct async_scope* scope) {
+  VF_P(scope == &SC && G.my_refs >= 1, "record_completion gives back a unit this party holds (no reference is released twice)");
+  vf_interfere();
+  VF_P(COUNT(SC.opState_) >= 1, "the count never underflows");
+  SC.opState_ -= 2; G.my_refs--; G.released++;
+}
 
 static void EV_sender_construct(struct nest_sender* self, const struct nest_sender* from) {
   VF_P(!ALIVE(self), "a wrapped sender is constructed only into empty storage");
@@ -33,9 +79,25 @@ static void EV_sender_destruct(struct nest_sender* self) {
   if (!ALIVE(self)) G.bad = 1;
   ALIVE(self) = 0; G.destructs++;
 }
-/* scope_reference special members as events (bodies proved in group scope_v2) */
-static void sr_release(struct scope_reference* r) { if (r->scope_ != NULL) { G.released++; r->scope_ = NULL; } }
-static void sr_copy(struct scope_reference* dst, const struct scope_reference* src) { if (src->scope_ != NULL && !G.copy_fails) { dst->scope_ = src->scope_; G.acquired++; } else { dst->scope_ = NULL; } }
+/* ---- scope_reference special members: the real text (scope_or_nullptr / ~scope_reference are also proved against the real
+ * try_record_start / record_completion in group scope_v2) ---- */
+static struct async_scope* scope_reference_scope_or_nullptr(struct async_scope* scope)
+/*@BODY sr_scope_or_nullptr*/
+static void scope_reference_dtor_body(struct scope_reference* self)
+/*@BODY sr_dtor*/
+static void sr_release(struct scope_reference* r) { scope_reference_dtor_body(r); r->scope_ = NULL; /* the object is gone */ }
+static void sr_default(struct scope_reference* self) {   /* scope_reference() = default: the member's default initialiser (none = indeterminate) */
+  struct async_scope* vf_init /*@EXPR sr_default_init*/;
+  self->scope_ = vf_init;
+}
+static void sr_explicit(struct scope_reference* self, struct async_scope* scope) {   /* explicit scope_reference(async_scope* scope) */
+  self->scope_ = /*@EXPR sr_explicit_init*/;
+}
+static void sr_copy(struct scope_reference* dst, const struct scope_reference* src) {   /* scope_reference(const scope_reference& other): delegates */
+#define other (*src)
+  sr_explicit(dst, /*@EXPR sr_copy_deleg*/);
+#undef other
+}
 static void scope_reference_swap_assign(struct scope_reference* self, struct scope_reference* rhs)
 /*@BODY sr_swap*/
 static void sr_move(struct scope_reference* dst, struct scope_reference* src) {   /* scope_reference(scope_reference&& other): mem-initialiser from the source */
